@@ -142,6 +142,13 @@ def h_step(g, kind, K, a, step):
             elif name == "gate2":
                 ops.BSgate(g.real("theta"), g.real("phi")) | (q[active0.index(step[1])], q[active0.index(step[2])])
                 touched = (step[1], step[2])
+                if kind == "fock":
+                    # a beamsplitter matrix cut off at D is not unitary on the truncated space, so on the ARBITRARY
+                    # symbolic state used here the spectators' reduced states change by truncation alone (they do not
+                    # on states inside the cutoff); that is no bookkeeping matter: only indices, labels and shapes are
+                    # asserted for this step on the Fock backend (the spectator data check for Fock gates is C05's,
+                    # with the gate tensor restricted by its selection rule)
+                    touched = tuple(active0)
             elif name == "use_deleted":
                 # the RegRef of a deleted mode, taken from the first segment
                 ops.Rgate(0.3) | p1.reg_refs[step[1]]
